@@ -369,6 +369,10 @@ pub fn run(toks: &[&str]) -> String {
             let mut turn = 0usize;
             loop {
                 turn += 1;
+                if via == Some('s') {
+                    // a pipelining client: a command goes out before every receive; what was received and not yet handed out stays
+                    let _ = if turn % 3 == 0 { conn.send_list(ping_list()) } else { conn.send(ping()) };
+                }
                 let got = match via {
                     Some('c') if turn % 2 == 0 => as_receive(conn.command(ping())),
                     Some('l') if turn % 2 == 0 => as_receive(conn.command_list(ping_list())),
@@ -409,6 +413,9 @@ pub fn run(toks: &[&str]) -> String {
                 let mut turn = 0usize;
                 loop {
                     turn += 1;
+                    if via == Some('s') {
+                        let _ = if turn % 3 == 0 { conn.send_list(ping_list()).await } else { conn.send(ping()).await };
+                    }
                     let got = match via {
                         Some('c') if turn % 2 == 0 => as_receive(conn.command(ping()).await),
                         Some('l') if turn % 2 == 0 => as_receive(conn.command_list(ping_list()).await),
